@@ -49,6 +49,8 @@ struct Opts {
     fast_bin: Option<String>,
     digest_only: bool,
     max_seconds: u64,
+    /// first run index of the batch (crash bisection runs slices)
+    first_run: u64,
 }
 
 fn default_runs(prop: &str, tier: &str) -> u64 {
@@ -84,6 +86,7 @@ fn parse_opts(args: &[String]) -> Result<Opts, String> {
         fast_bin: None,
         digest_only: false,
         max_seconds: 0,
+        first_run: 0,
     };
     if let Ok(v) = std::env::var("VERIF_SEED") {
         if !v.trim().is_empty() {
@@ -109,6 +112,7 @@ fn parse_opts(args: &[String]) -> Result<Opts, String> {
             "--fast-bin" => o.fast_bin = Some(val()?),
             "--max-seconds" => o.max_seconds = val()?.parse().map_err(|_| "bad --max-seconds")?,
             "--digest-only" => o.digest_only = true,
+            "--from" => o.first_run = val()?.parse().map_err(|_| "bad --from")?,
             x => return Err(format!("unknown option {x}")),
         }
     }
@@ -230,7 +234,8 @@ fn run_batch(o: &Opts) -> Batch {
     let stop = Arc::new(AtomicBool::new(false));
     let timed_out = Arc::new(AtomicBool::new(false));
     let nfails = Arc::new(AtomicU64::new(0));
-    let nchunks = (o.runs + CHUNK - 1) / CHUNK;
+    let span = o.runs.saturating_sub(o.first_run);
+    let nchunks = (span + CHUNK - 1) / CHUNK;
     let distinct = Arc::new(Bitmap::new(if o.tier == "quick" { 1 << 28 } else { 1u64 << 33 }));
     let outcomes: Arc<[Bitmap; 3]> = Arc::new([
         Bitmap::new(256),
@@ -278,8 +283,8 @@ fn run_batch(o: &Opts) -> Batch {
                     stop.store(true, Ordering::Relaxed);
                     break;
                 }
-                let lo = c * CHUNK;
-                let hi = ((c + 1) * CHUNK).min(o.runs);
+                let lo = o.first_run + c * CHUNK;
+                let hi = (o.first_run + (c + 1) * CHUNK).min(o.runs);
                 for run in lo..hi {
                     beats[wid].1.store(t0.elapsed().as_millis() as u64, Ordering::Relaxed);
                     beats[wid].0.store(run, Ordering::Relaxed);
@@ -548,6 +553,34 @@ fn write_evidence(o: &Opts, b: &Batch, violations: i128, known_hits: &[String], 
 /// Replays a file. Prints one machine-readable line and returns the exit code:
 /// 1 = the recorded clause fails again (VIOLATION line printed), 0 = history passes, 2 = error.
 fn do_replay(path: &str) -> i32 {
+    // the replay itself runs in a child process, so that code under test which kills the process
+    // (abort, stack overflow, fatal signal) cannot take the reporter down with it
+    let exe = match std::env::current_exe() {
+        Ok(e) => e,
+        Err(_) => return 2,
+    };
+    let out = match std::process::Command::new(exe).args(["replay-inner", path]).output() {
+        Ok(o) => o,
+        Err(e) => {
+            eprintln!("simcheck: cannot spawn the replay child: {e}");
+            return 2;
+        }
+    };
+    print!("{}", String::from_utf8_lossy(&out.stdout));
+    eprint!("{}", String::from_utf8_lossy(&out.stderr));
+    if let Some(c @ 0..=2) = out.status.code() {
+        return c;
+    }
+    let text = std::fs::read_to_string(path).unwrap_or_default();
+    let field = |k: &str| text.lines().find_map(|l| l.strip_prefix(k).map(|v| v.trim().to_string()));
+    let property = field("property ").unwrap_or_else(|| "?".into());
+    let step = field("step ").or_else(|| field("sample ")).unwrap_or_else(|| "0".into());
+    println!("REPLAY-FAIL clause=abort step={step} observed={ABORT_OBSERVED}");
+    println!("VIOLATION property={property} replay={path}");
+    1
+}
+
+fn do_replay_inner(path: &str) -> i32 {
     let r = match replay::read(path) {
         Ok(r) => r,
         Err(e) => {
@@ -820,7 +853,60 @@ const HANG_OBSERVED: &str = "no return within 10 s";
 
 /// A worker was stuck on run `run`: regenerate it in a child process with tracing, kill the child,
 /// turn the partial trace into a replay file, confirm it in a fresh process, report it.
+/// `simcheck crashfind <prop> …same options as run…`: the batch process died (abort, stack overflow,
+/// fatal signal — nothing `catch_unwind` can catch). Find the first run that kills a process by
+/// running slices of the batch in child processes and bisecting, then report it like a hang.
+fn cmd_crashfind(o: &Opts) -> i32 {
+    let exe = match std::env::current_exe() {
+        Ok(e) => e,
+        Err(_) => return 2,
+    };
+    let dies = |from: u64, to: u64, workers: usize| -> Option<bool> {
+        let out = std::process::Command::new(&exe)
+            .args(["run", &o.prop, "--tier", &o.tier, "--seed", &o.seed.to_string(), "--from", &from.to_string(), "--runs", &to.to_string(), "--workers", &workers.to_string(), "--profile", &o.profile, "--digest-only"])
+            .output()
+            .ok()?;
+        Some(!matches!(out.status.code(), Some(0..=2)))
+    };
+    println!("simcheck: the batch process died; looking for the run that kills it (profile {})", o.profile);
+    // phase 1: halve with parallel children until the slice is small, then single-threaded bisection
+    let (mut a, mut b) = (0u64, o.runs);
+    match dies(a, b, o.workers) {
+        Some(true) => {}
+        _ => {
+            eprintln!("simcheck: the batch does not die when repeated: harness error, no verdict");
+            return 2;
+        }
+    }
+    while b - a > 1 {
+        let mid = a + (b - a) / 2;
+        let w = if b - a > 20_000 { o.workers } else { 1 };
+        match dies(a, mid, w) {
+            Some(true) => b = mid,
+            Some(false) => a = mid,
+            None => return 2,
+        }
+    }
+    // [a, b) is one run: confirm
+    if dies(a, b, 1) != Some(true) {
+        eprintln!("simcheck: bisection ended on run {a}, which does not kill a process on its own (hidden state?): harness error, no verdict");
+        return 2;
+    }
+    handle_stuck_or_dead(o, a, true)
+}
+
+const ABORT_OBSERVED: &str = "process died (abort, stack overflow or fatal signal)";
+
 fn handle_hang(o: &Opts, run: u64) -> i32 {
+    handle_stuck_or_dead(o, run, false)
+}
+
+/// `dead` = false: run `run` never returns (kill the trace child after the watchdog limit);
+/// `dead` = true: run `run` kills the process (the trace child dies by itself).
+fn handle_stuck_or_dead(o: &Opts, run: u64, dead: bool) -> i32 {
+    let (kname, kobs) = if dead { ("abort", ABORT_OBSERVED) } else { ("hang", HANG_OBSERVED) };
+    let qclause = if dead { Clause::Abort } else { Clause::Hang };
+    let rclause = if dead { rngsim::RClause::Abort } else { rngsim::RClause::Hang };
     let _ = std::fs::create_dir_all(&o.replays);
     let tmp = format!("{}/{}-{}-{}.trace.tmp", o.replays, o.prop, o.seed, run);
     let exe = match std::env::current_exe() {
@@ -838,21 +924,38 @@ fn handle_hang(o: &Opts, run: u64) -> i32 {
         }
     };
     let t0 = Instant::now();
-    let mut exited = false;
+    let mut exited: Option<std::process::ExitStatus> = None;
     while t0.elapsed().as_millis() < (HANG_MS + 5_000) as u128 {
-        if let Ok(Some(_)) = child.try_wait() {
-            exited = true;
+        if let Ok(Some(st)) = child.try_wait() {
+            exited = Some(st);
             break;
         }
         std::thread::sleep(std::time::Duration::from_millis(50));
     }
-    if exited {
-        eprintln!("simcheck: note: run {run} exceeded the watchdog in the batch but returns in a fresh process (machine stalled?)");
-        let _ = std::fs::remove_file(&tmp);
-        return 3; // spurious: the caller repeats the batch once
+    match (dead, exited) {
+        (false, Some(_)) => {
+            eprintln!("simcheck: note: run {run} exceeded the watchdog in the batch but returns in a fresh process (machine stalled?)");
+            let _ = std::fs::remove_file(&tmp);
+            return 3; // spurious: the caller repeats the batch once
+        }
+        (true, Some(st)) if matches!(st.code(), Some(0..=2)) => {
+            eprintln!("simcheck: run {run} was blamed for killing the process but returns in a fresh process: harness error");
+            let _ = std::fs::remove_file(&tmp);
+            return 2;
+        }
+        (true, None) => {
+            // it was supposed to die, not to hang
+            let _ = child.kill();
+            let _ = child.wait();
+            let _ = std::fs::remove_file(&tmp);
+            return 2;
+        }
+        (false, None) => {
+            let _ = child.kill();
+            let _ = child.wait();
+        }
+        (true, Some(_)) => {}
     }
-    let _ = child.kill();
-    let _ = child.wait();
     let text = std::fs::read_to_string(&tmp).unwrap_or_default();
     let _ = std::fs::remove_file(&tmp);
     let path = format!("{}/{}-{}-{}.replay", o.replays, o.prop, o.seed, run);
@@ -862,7 +965,7 @@ fn handle_hang(o: &Opts, run: u64) -> i32 {
     let qt = match qt {
         Some(q) => q,
         None => {
-            eprintln!("simcheck: empty trace for hanging run {run}");
+            eprintln!("simcheck: empty trace for run {run}");
             return 2;
         }
     };
@@ -882,12 +985,12 @@ fn handle_hang(o: &Opts, run: u64) -> i32 {
         }
         let nsamples = if entry == rngsim::Entry::Iter { hdr_n } else { markers.max(1) };
         let mut case = rngsim::RCase { qt, entry, nsamples, words };
-        let mut f = rngsim::RFailure { clause: rngsim::RClause::Hang, sample: nsamples - 1, observed: HANG_OBSERVED.into() };
+        let mut f = rngsim::RFailure { clause: rclause, sample: nsamples - 1, observed: kobs.into() };
         // cheap minimisation: the last started sample alone (one fresh-process trial)
         if entry != rngsim::Entry::Iter && nsamples > 1 && last_sample_start <= case.words.len() {
             let c1 = rngsim::RCase { qt, entry, nsamples: 1, words: case.words[last_sample_start..].to_vec() };
-            let f1 = rngsim::RFailure { clause: rngsim::RClause::Hang, sample: 0, observed: HANG_OBSERVED.into() };
-            if replay::write_rng(&path, &meta, &c1, &f1).is_ok() && fresh_process_replay(&path, "hang", 0, HANG_OBSERVED).is_ok() {
+            let f1 = rngsim::RFailure { clause: rclause, sample: 0, observed: kobs.into() };
+            if replay::write_rng(&path, &meta, &c1, &f1).is_ok() && fresh_process_replay(&path, kname, 0, kobs).is_ok() {
                 case = c1;
                 f = f1;
             }
@@ -895,11 +998,11 @@ fn handle_hang(o: &Opts, run: u64) -> i32 {
         if replay::write_rng(&path, &meta, &case, &f).is_err() {
             return 2;
         }
-        if let Err(e) = fresh_process_replay(&path, "hang", f.sample, HANG_OBSERVED) {
+        if let Err(e) = fresh_process_replay(&path, kname, f.sample, kobs) {
             eprintln!("simcheck: {e}");
             return 2;
         }
-        println!("violation: run {run}: the sampler did not return within {} s after {} words ({} samples started; replay holds {} sample(s))", HANG_MS / 1000, case.words.len(), nsamples, case.nsamples);
+        println!("violation: run {run}: the sampler {} after {} words ({} samples started; replay holds {} sample(s))", if dead { "killed the process" } else { "did not return within the watchdog limit" }, case.words.len(), nsamples, case.nsamples);
         println!("  words: {}", case.words_text());
     } else {
         let init_via: u8 = lines.next().and_then(|l| l.strip_prefix("init_via ")).and_then(|v| v.parse().ok()).unwrap_or(0);
@@ -915,14 +1018,14 @@ fn handle_hang(o: &Opts, run: u64) -> i32 {
             return 2;
         }
         let full = Case { qt, init_via, events };
-        let mk = |c: &Case| Failure { clause: Clause::Hang, step: c.events.len() - 1, expected: "the event and the observers after it return".into(), observed: HANG_OBSERVED.into() };
+        let mk = |c: &Case| Failure { clause: qclause, step: c.events.len() - 1, expected: "the event and the observers after it return".into(), observed: kobs.into() };
         // cheap minimisation: the shortest suffix (1..4 events, from a cleared quire) that still
         // hangs — each trial is a fresh process, so at most four of them
         let mut case = full.clone();
         for n in 1..=4usize.min(full.events.len().saturating_sub(1)) {
             let c = Case { qt, init_via: 0, events: full.events[full.events.len() - n..].to_vec() };
             let f = mk(&c);
-            if replay::write_quire(&path, &o.prop, &meta, &c, &f).is_ok() && fresh_process_replay(&path, "hang", f.step, HANG_OBSERVED).is_ok() {
+            if replay::write_quire(&path, &o.prop, &meta, &c, &f).is_ok() && fresh_process_replay(&path, kname, f.step, kobs).is_ok() {
                 case = c;
                 break;
             }
@@ -932,11 +1035,11 @@ fn handle_hang(o: &Opts, run: u64) -> i32 {
         if replay::write_quire(&path, &o.prop, &meta, &case, &f).is_err() {
             return 2;
         }
-        if let Err(e) = fresh_process_replay(&path, "hang", step, HANG_OBSERVED) {
+        if let Err(e) = fresh_process_replay(&path, kname, step, kobs) {
             eprintln!("simcheck: {e}");
             return 2;
         }
-        println!("violation: run {run}: event {step} of this history (or an observer after it) did not return within {} s ({} of the run's {} events kept)", HANG_MS / 1000, case.events.len(), full.events.len());
+        println!("violation: run {run}: event {step} of this history (or an observer after it) {} ({} of the run's {} events kept)", if dead { "killed the process" } else { "did not return within the watchdog limit" }, case.events.len(), full.events.len());
         for (n, e) in case.events.iter().enumerate() {
             println!("  [{n}] {}", e.text());
         }
@@ -1165,9 +1268,27 @@ fn cmd_run(o: &Opts) -> i32 {
                         cross = Some(obj(vec![("profile", s("fast")), ("runs", i(sub)), ("violations", i(1))]));
                         cross_violation = true;
                     }
-                    c => {
-                        eprintln!("simcheck: fast-profile sub-batch failed (exit {c:?}):\n{t}{}", String::from_utf8_lossy(&out.stderr));
+                    Some(2) => {
+                        eprintln!("simcheck: fast-profile sub-batch failed (exit 2):\n{t}{}", String::from_utf8_lossy(&out.stderr));
                         return 2;
+                    }
+                    _ => {
+                        // the plain optimised build died: let that binary find the run that kills it
+                        let cf = std::process::Command::new(fb)
+                            .args(["crashfind", &o.prop, "--tier", &o.tier, "--runs", &sub.to_string(), "--seed", &o.seed.to_string(), "--workers", &o.workers.to_string(), "--profile", "fast", "--replays", &o.replays])
+                            .output();
+                        match cf {
+                            Ok(cf) if cf.status.code() == Some(1) => {
+                                println!("--- the plain optimised build (profile fast) died; its crash finder reports:");
+                                print!("{}", String::from_utf8_lossy(&cf.stdout));
+                                cross = Some(obj(vec![("profile", s("fast")), ("runs", i(sub)), ("violations", i(1))]));
+                                cross_violation = true;
+                            }
+                            _ => {
+                                eprintln!("simcheck: the fast-profile sub-batch died and the crash finder could not blame a run: harness error");
+                                return 2;
+                            }
+                        }
                     }
                 }
             }
@@ -1223,6 +1344,20 @@ fn main() {
             }
         },
         Some("trace") => cmd_trace(&args[1..]),
+        Some("crashfind") => match parse_opts(&args[1..]) {
+            Ok(o) => {
+                gen::THOROUGH.store(o.tier == "thorough", Ordering::Relaxed);
+                cmd_crashfind(&o)
+            }
+            Err(e) => {
+                eprintln!("simcheck: {e}");
+                2
+            }
+        },
+        Some("replay-inner") => match args.get(1) {
+            Some(p) => do_replay_inner(p),
+            None => 2,
+        },
         Some("seqfind") => cmd_seqfind(&args[1..]),
         Some("probe-suite-fma") => probe_suite_fma(args.get(1).and_then(|v| v.parse().ok()).unwrap_or(10_000_000)),
         Some("replay") => match args.get(1) {
